@@ -570,7 +570,7 @@ def run(ctx):
 
 
 MANIFEST_ENTRY = {
-    "technique": "static analysis: abstract evaluation (rules/checklocales.py on rules/absint.py) of check_locales_inner with the real StringIndexer under it over every locale order (each locale's table = its own distinct texts, count = its length) and of the indexer on every push sequence of length <= 4; MIR path enumeration of ParsedValue::merge (every successful merge of a renderable value indexes it), MIR single-writer check of literal indices, traversal completeness of index_strings, escaper decision table against the JSON grammar with helper predicates interpreted and astral / invisible representatives",
+    "technique": "static analysis: abstract evaluation (rules/checklocales.py on rules/absint.py) of check_locales_inner with the real StringIndexer under it over every locale order (each locale's table = its own distinct texts, count = its length) and of the indexer on every push sequence of length <= 4; MIR path enumeration of ParsedValue::merge (every successful merge of a renderable value indexes it), MIR single-writer check of literal indices, traversal completeness of index_strings, escaper decision table against the JSON grammar with helper predicates interpreted and astral / invisible representatives, MIR check that the exported file is created / truncated before the document is written",
     "level_text": "Structural: for every locale the index space is shown to be created, filled, stored and measured from one fresh indexer; indices have one writer; the generated code is shown to carry table size and index in types; the exported file is shown to be written through an escaper whose table covers what JSON requires. No table is computed.",
     "level_note": "Trusted: const-generic array typing, JSON grammar. Not decided: StringArray::cast at run time, concrete tables.",
 }
